@@ -133,7 +133,7 @@ def build_harness(ctx):
 def run_impl(ctx, text):
     exe = build_harness(ctx)
     env = dict(os.environ, ASAN_OPTIONS='detect_leaks=0:abort_on_error=0:allocator_may_return_null=1')
-    rc, o, e = sh([exe], input=text, timeout=3000, env=env)
+    rc, o, e = sh([exe, os.path.join(ctx.scratch, 'harness_file_input.c')], input=text, timeout=3000, env=env)
     lines = o.splitlines()
     if rc != 0:
         tail = [l for l in e.strip().splitlines() if 'ERROR' in l or 'runtime error' in l][:1]
@@ -425,6 +425,100 @@ def leg_readers(ctx, corr):
         if w is not None and li != w:
             return {'what': 'BOM / CR / CRLF / backslash-newline / universal-character-name handling is not transparent', 'expected': w}
     run_both(ctx, corr, tops, 'text_phases', lambda op, li: True, oracle)
+
+# ------------------------------------------------------------------------------------------------ leg 5: splices anywhere (tokenize_file)
+
+SPLICE_WITNESSES = [      # Findings/C11.lean: the hypotheses of C11_text_transparent are necessary (model <-> code only)
+    b"'\\\n\n'", b"'\n'", b'\\\n\xef\xbb\xbf1', b'\xef\xbb\\\n\xbf1', b'\xef\xbb\xbf1',
+    b'"\\\n\\u005c\na"', b'"\\u005c\na"', b'"abc\\\\\n\n"', b"'a\\\n' x", b'"a\\', b'"a\\\n', b'1\\\n2\\\n3\\\n',
+]
+
+def splice_bases(ctx):
+    """file contents whose first line starts with a complete literal, followed by harmless tokens and lines"""
+    rng = ctx.rng
+    out = []
+    tails = [b';', b' + x;', b', "tail" )', b' /* c */ + 1', b'']
+    more = [b'', b'int y = 2;\n', b'foo("s", 1.5, \'c\')\nbar\n', b'\n\nz\n']
+    n = 40 if not ctx.thorough else 1200
+    for _ in range(n):
+        k = rng.random()
+        if k < 0.45:
+            prefix = rng.choice(['', 'u8', 'u', 'U', 'L'])
+            body = rand_content(rng, prefix)
+            if rng.random() < 0.4:
+                body += rng.choice([b'\\u00e9', b'\\U0001F600', b'\\u20AC', ref_utf8(0x1F600), ref_utf8(0xE9), b'\\\\', b'\\"'])
+            lit = prefix.encode() + b'"' + body + b'"'
+        elif k < 0.7:
+            prefix = rng.choice(['', 'u', 'U', 'L'])
+            c = rng.choice(BOUNDARY_CPS)
+            body = rng.choice([ref_utf8(c if is_scalar(c) and c not in (0x27, 0x5C, 0x0A) else 0x41), b'\\n', b'\\x41', b'\\101', b'\\\'', b'\\\\',
+                               b'\\u00e9' if prefix else b'\\0'])
+            lit = prefix.encode() + b"'" + body + b"'"
+        else:
+            lit = rng.choice([spell_int(rng.choice([2, 8, 10, 16]), rng.getrandbits(rng.choice([8, 31, 32, 63, 64])), rng).encode() + rng.choice(SUFFIXES).encode(),
+                              b'1e+5f', b'0x1p-3L', b'1.5', b'.5e-2', b'0x7fffffff', b'4294967296u'])
+        out.append((lit, lit + rng.choice(tails) + b'\n' + rng.choice(more)))
+    return out
+
+def leg_splice(ctx, corr):
+    """tokenize_file() as a whole (read_file's final newline, BOM, CR/CRLF, splices, UCNs, tokenize) on texts with backslash-newlines
+    inserted anywhere: model <-> code on every text; and, inside the region of C11_text_transparent / C11_text_unspliced, the real code
+    against the property itself: the first token of the spliced file is the first token of the unspliced one."""
+    rng = ctx.rng
+    ops, partner, inside = [], {}, {}
+    for lit, base in splice_bases(ctx):
+        bom = rng.random() < 0.25
+        eol = rng.choice([b'\n', b'\n', b'\r\n', b'\r'])
+        text = (b'\xef\xbb\xbf' if bom else b'') + base.replace(b'\n', eol)
+        if rng.random() < 0.2 and text.endswith(eol):
+            text = text[:-len(eol)]                       # no final newline: read_file adds it
+        bop = 'file ' + hexs(text)
+        ops.append(bop)
+        for _ in range(3):
+            t = text
+            k = rng.randrange(1, 5)
+            ok = True
+            hit = False
+            for _ in range(k):
+                pos = rng.randrange(0, len(t) + 1) if rng.random() < 0.5 else rng.randrange(0, min(len(t), len(lit) + 4) + 1)
+                sp = b'\\' + (eol if eol != b'\n' and rng.random() < 0.7 else b'\n')
+                if pos > 0 and t[pos - 1:pos] == b'\\':
+                    ok = False                            # `\\<LF>`: pairs with the earlier backslash (hypothesis of the theorem)
+                if bom and pos < 3:
+                    ok = False                            # inside / in front of the BOM
+                if t[pos - 1:pos] == b'\r' and t[pos:pos + 1] == b'\n':
+                    ok = False                            # between the CR and the LF of one line end
+                if sp == b'\\\r' and t[pos:pos + 1] == b'\n':
+                    ok = False                            # the inserted CR would pair with a following LF
+                if (3 if bom else 0) <= pos <= (3 if bom else 0) + len(lit):
+                    hit = True
+                t = t[:pos] + sp + t[pos:]
+            op = 'file ' + hexs(t)
+            ops.append(op)
+            if ok:
+                partner[op] = bop
+                if hit:
+                    inside[op] = True
+            else:
+                corr.count('splice_outside_region')
+    for w in SPLICE_WITNESSES:
+        ops.append('file ' + hexs(w))
+    results = {}
+
+    def tok_part(line):
+        w = line.split(' ')
+        return ' '.join(w[2:]) if len(w) > 2 and w[1] != 'err' else line
+
+    def oracle(op, li):
+        results[op] = li
+        b = partner.get(op)
+        if b is None or b not in results:
+            return None
+        if tok_part(li) != tok_part(results[b]):
+            return {'what': 'a backslash-newline inserted into the file changes the literal token tokenize() reads (C11 5.1.1.2p1(2): the '
+                            'splice is deleted before tokenization)', 'expected': 'first token as in the unspliced file: ' + tok_part(results[b])}
+    run_both(ctx, corr, ops, 'tokenize_file_splices', lambda op, li: op in inside, oracle)
+    corr.extra['splice_cases_inside_theorem_region'] = len(partner)
 
 def ref_phases(t):
     """reference for the text tokenize() sees (None when the input has UCN latitude: malformed or disallowed UCNs, or a splice/line
@@ -859,7 +953,7 @@ def correspond(ctx, corr):
                  'units, float bits) compared; types compared modulo long long = long.  non-trivial = multi-byte/multi-unit/typed/err results; '
                  'distinct = by operation text / literal spelling.')
     times = {}
-    for leg in (run_corpus, leg_codepoints, leg_int, leg_escape, leg_readers, e2e_int, e2e_float, e2e_chars, e2e_strings, e2e_text, e2e_ident):
+    for leg in (run_corpus, leg_codepoints, leg_int, leg_escape, leg_readers, leg_splice, e2e_int, e2e_float, e2e_chars, e2e_strings, e2e_text, e2e_ident):
         t0 = time.time()
         leg(ctx, corr)
         times[leg.__name__] = round(time.time() - t0, 1)
@@ -891,7 +985,7 @@ def replay(ctx, corr, path):
     payload = json.load(open(path))
     op = payload.get('input')
     corr.evaluations = 1
-    if isinstance(op, str) and op.split(' ')[0] in ('enc', 'dec', 'id', 'u16', 'int', 'esc', 'lit', 'text', 'join'):
+    if isinstance(op, str) and op.split(' ')[0] in ('enc', 'dec', 'id', 'u16', 'int', 'esc', 'lit', 'text', 'join', 'file'):
         li = run_impl(ctx, op + '\n')
         lm = ctx.driver('literals', op + '\n').splitlines()
         print('replay:', op, '->', li[:1], 'model', lm[:1], 'expected', payload.get('expected'))
